@@ -26,13 +26,22 @@ func profile() *vtx.Profile {
 			{Lifetime: tenH},
 			{Lifetime: tenH, Perm: 40 * time.Second, Chan: 100 * time.Second},
 			{Lifetime: tenH, Perm: 100 * time.Second, Chan: 40 * time.Second},
+			// a configured default allocation lifetime BELOW both timeouts: the allocation of this configuration is made
+			// with LIFETIME 3599 (granted as requested), so it outlives the default and its entries keep their own timeouts
+			{Name: "short-default-lifetime", Lifetime: 30 * time.Second, Perm: 40 * time.Second, Chan: 100 * time.Second},
 		},
 		Clients: []string{"c1"},
 		Peers:   []string{"A", "A2", "B"},
 		Chans:   []uint16{0x4000, 0x4001},
 		Depth:   depth,
 		Drain:   true,
-		Setup:   func(vtx.Config) []vtx.Event { return []vtx.Event{{K: "alloc", C: "c1", L: -1}} },
+		Setup: func(c vtx.Config) []vtx.Event {
+			if c.Name == "short-default-lifetime" {
+				return []vtx.Event{{K: "alloc", C: "c1", L: 3599}}
+			}
+
+			return []vtx.Event{{K: "alloc", C: "c1", L: -1}}
+		},
 		Tags: map[string]bool{"miss-c2p": true, "miss-p2c": true, "leak-c2p": true, "leak-p2c": true, "resp": true,
 			"chan-bijection": true},
 		Menu: func(m *vtx.Model, now time.Time, _ int) []vtx.Event {
